@@ -11,6 +11,7 @@ package core
 import (
 	"fmt"
 	"runtime"
+	"runtime/debug"
 	stdsync "sync"
 	stdatomic "sync/atomic"
 )
@@ -122,4 +123,12 @@ func TakePanics() []string {
 	out := panicLog
 	panicLog = nil
 	return out
+}
+
+// RecoverGoroutine is deferred at the top of every goroutine that an instrumented package starts (inserted by
+// mkoverlay): a panic is recorded for the harness instead of killing the worker process.
+func RecoverGoroutine(where string) {
+	if r := recover(); r != nil {
+		RecordPanic(where, r, debug.Stack())
+	}
 }
